@@ -1,7 +1,459 @@
-//! C02 — not implemented yet (see DESIGN.md section 4).
-use kit::Run;
-use serde_json::Value;
+//! C02 — tamper evidence of manifest store bytes (S-inp, bounded exhaustive).
+//!
+//! Seeds: manifest shapes {single, ingredient chain of depth 2 (parent + component), depth 3, chain with a redaction,
+//! compressed (brob) manifest} x carriers {embedded in a JPEG (data hash / box hash), detached store validated against
+//! the unchanged asset}. Every seed must read back Valid.
+//! Alphabet: every byte of the store (embedded: of the whole C2PA container incl. its framing) x bit patterns, and
+//! JUMBF structure edits from the harness's own box walker on the detached stores: duplicate / delete every box,
+//! swap every pair of adjacent siblings, rewrite every label byte, move every assertion box of an ingredient manifest
+//! into the active manifest's assertion store (ancestor LBox fields are fixed up so the tree stays well formed).
+//! Oracle (property text): Err | Invalid | (Valid/Trusted AND canonical report — manifest content, signature
+//! information, validation codes — exactly the seed's). A panic is neither.
+//!
+//! Mutants caught (tools/mutant_run.sh B ... C02 quick):
+//!   /verif/mutants/C02-skip-assertion-hash.diff
+//!   /verif/mutants/C02-ingredient-hash-mismatch-accepted.diff
 
-pub fn run(_run: &Run, _replay: Option<&Value>) {
-    kit::ev::machinery("C02: check not implemented");
+use std::{
+    collections::hash_map::DefaultHasher,
+    hash::{Hash, Hasher},
+    io::Cursor,
+};
+
+use c2pa::Reader;
+use kit::{
+    assets, par, sdk,
+    tamper::{self, Edit, JBox, Obs, ReadSpec},
+    Run,
+};
+use serde_json::{json, Value};
+
+pub struct Seed {
+    pub id: String,
+    pub spec: ReadSpec,
+    /// embedded: the signed asset; detached: the raw manifest store
+    pub bytes: Vec<u8>,
+    /// detached: the asset the store is validated against
+    pub asset: Option<Vec<u8>>,
+    /// the byte range of `bytes` that is swept
+    pub range: (usize, usize),
+    pub canon: String,
+    pub chain: bool,
+    /// what the quick tier sweeps: "full3" = every byte x {01,80,FF}; "fullFF" = every byte x {FF};
+    /// "activeFF" = every byte of the active (last) manifest box x {FF}; "skip" = thorough only
+    pub quick: &'static str,
+}
+
+impl Seed {
+    pub fn observe(&self, m: &[u8]) -> Obs {
+        match &self.asset {
+            None => tamper::observe(&self.spec, m),
+            Some(a) => tamper::observe_detached(&self.spec, m, a),
+        }
+    }
+}
+
+fn signer() -> Box<dyn c2pa::Signer + Send + Sync> {
+    sdk::fixture_signer("ed25519")
+}
+
+const JPEG: &str = "image/jpeg";
+
+fn def(title: &str, extra: &str) -> String {
+    format!(r#"{{"title":"{title}","claim_generator_info":[{{"name":"kit","version":"1"}}]{extra}}}"#)
+}
+
+/// Build a manifest over `src` (a possibly signed JPEG, which becomes the parent) with optional component ingredient,
+/// optional redaction and user assertion; embedded or detached.
+fn make(title: &str, src: &[u8], component: Option<&[u8]>, redact: Option<&str>, secret: bool, settings: &[&str], detached: bool) -> (Vec<u8>, Vec<u8>) {
+    let mut extra = String::new();
+    if secret {
+        extra.push_str(r#","assertions":[{"label":"org.kit.secret","data":{"who":"marker-7f3a"}}]"#);
+    }
+    if let Some(uri) = redact {
+        extra.push_str(&format!(r#","redactions":["{uri}"]"#));
+    }
+    let mut b = sdk::builder(sdk::ctx_with(settings), &def(title, &extra));
+    if let Some(c) = component {
+        b.add_ingredient_from_stream(r#"{"title":"component","relationship":"componentOf"}"#, "image/png", &mut Cursor::new(c))
+            .unwrap_or_else(|e| kit::ev::machinery(format!("C02 seed {title}: component ingredient: {e:?}")));
+    }
+    if redact.is_some() {
+        b.add_action(json!({"action":"c2pa.redacted","reason":"c2pa.PII.present","parameters":{"redacted": redact.unwrap()}}))
+            .unwrap_or_else(|e| kit::ev::machinery(format!("C02 seed {title}: redacted action: {e:?}")));
+    }
+    b.set_no_embed(detached);
+    sdk::sign(&mut b, signer().as_ref(), JPEG, src).unwrap_or_else(|e| kit::ev::machinery(format!("C02 seed {title}: {e:?}")))
+}
+
+fn finish(id: &str, bytes: Vec<u8>, asset: Option<Vec<u8>>, chain: bool, quick: &'static str) -> Seed {
+    finish_mime(id, JPEG, bytes, asset, chain, quick)
+}
+
+fn finish_mime(id: &str, mime: &str, bytes: Vec<u8>, asset: Option<Vec<u8>>, chain: bool, quick: &'static str) -> Seed {
+    let spec = ReadSpec { mime: mime.into(), settings: vec![] };
+    let ctx = tamper::ctx_for(&spec.settings);
+    let rd = match &asset {
+        None => Reader::from_shared_context(&ctx).with_stream(mime, Cursor::new(&bytes)),
+        Some(a) => Reader::from_shared_context(&ctx).with_manifest_data_and_stream(&bytes, mime, Cursor::new(a)),
+    }
+    .unwrap_or_else(|e| kit::ev::machinery(format!("C02 seed {id} does not read back: {e:?}")));
+    if sdk::state_name(rd.validation_state()) == "Invalid" {
+        kit::ev::machinery(format!("C02 seed {id} reads back Invalid: {:?}", kit::canon::codes(&rd)));
+    }
+    let range = match &asset {
+        Some(_) => (0, bytes.len()),
+        None if tamper::family(mime) == "bmff" => {
+            // BMFF keeps an update manifest in a C2PA box of its own (purpose "update") behind the media: sweep that box
+            let bx = tamper::bmff_c2pa_boxes(&bytes).unwrap_or_default();
+            match bx.last() {
+                Some((s, e, _)) if bx.len() == 2 => (*s, *e),
+                _ => kit::ev::machinery(format!("C02 seed {id}: expected an original and an update C2PA box, found {}", bx.len())),
+            }
+        }
+        None => tamper::c2pa_container("jpeg", &bytes).unwrap_or_else(|| kit::ev::machinery(format!("C02 seed {id}: walker cannot find the C2PA container"))),
+    };
+    Seed { id: id.into(), spec, bytes, asset, range, canon: tamper::canon_report(&rd), chain, quick }
+}
+
+pub fn build_seeds() -> Vec<Seed> {
+    let s = signer();
+    let jpeg = assets::jpeg();
+    let png_signed = sdk::sign_simple(s.as_ref(), "image/png", &assets::png(), &[]);
+    let mut v = vec![];
+    // single
+    let (e, _) = make("single", &jpeg, None, None, false, &[], false);
+    v.push(finish("single/embedded", e, None, false, "full3"));
+    let (a, m) = make("single", &jpeg, None, None, false, &[], true);
+    v.push(finish("single/detached", m, Some(a), false, "full3"));
+    // compressed
+    let (e, _) = make("compressed", &jpeg, None, None, false, &[super::c01::COMPRESS], false);
+    v.push(finish("compressed/embedded", e, None, false, "full3"));
+    // chain: A (signed, with a redactable assertion) <- B (parentOf A, componentOf signed PNG) <- C
+    let (a_signed, _) = make("A", &jpeg, None, None, true, &[], false);
+    let (b_signed, _) = make("B", &a_signed, Some(&png_signed), None, false, &[], false);
+    v.push(finish("chain2/embedded", b_signed.clone(), None, true, "skip"));
+    let (ast, m) = make("B", &a_signed, Some(&png_signed), None, false, &[], true);
+    v.push(finish("chain2/detached", m, Some(ast), true, "fullFF"));
+    let (c_signed, _) = make("C", &b_signed, None, None, false, &[], false);
+    v.push(finish("chain3/embedded", c_signed, None, true, "skip"));
+    let (ast, m) = make("C", &b_signed, None, None, false, &[], true);
+    v.push(finish("chain3/detached", m, Some(ast), true, "activeFF"));
+    // redaction: R edits A and redacts A's org.kit.secret
+    let a_label = {
+        let rd = sdk::read(sdk::ctx(), JPEG, &a_signed).unwrap_or_else(|e| kit::ev::machinery(format!("C02: A: {e:?}")));
+        rd.active_label().unwrap_or("").to_string()
+    };
+    let uri = format!("self#jumbf=/c2pa/{a_label}/c2pa.assertions/org.kit.secret");
+    let (r_signed, _) = make("R", &a_signed, None, Some(&uri), false, &[], false);
+    let sd = finish("redaction/embedded", r_signed.clone(), None, true, "skip");
+    if r_signed.windows(11).any(|w| w == b"marker-7f3a") {
+        eprintln!("note: C02 redaction seed still contains the redacted payload (C20 territory)");
+    }
+    v.push(sd);
+    let (ast, m) = make("R", &a_signed, None, Some(&uri), false, &[], true);
+    v.push(finish("redaction/detached", m, Some(ast), true, "fullFF"));
+    // update manifest on BMFF: lives in a second C2PA box (purpose "update"); chain U <- P
+    let mp4 = assets::by_name("mp4");
+    let p_signed = sdk::sign_simple(s.as_ref(), mp4.mime, &mp4.data, &[]);
+    let u_signed = super::c01::sign_update(mp4.mime, &p_signed, &[]);
+    v.push(finish_mime("update-mp4/embedded", mp4.mime, u_signed, None, true, "full3"));
+    v
+}
+
+fn byte_edits(seed: &Seed, thorough: bool) -> (Vec<Edit>, String) {
+    let f = &seed.bytes;
+    let mut range = seed.range;
+    let masks: Vec<u8> = if thorough {
+        if seed.chain {
+            vec![0x01, 0x02, 0x04, 0x08, 0x10, 0x20, 0x40, 0x80, 0xFF]
+        } else {
+            (1..=255).collect()
+        }
+    } else {
+        match seed.quick {
+            "full3" => vec![0x01, 0x80, 0xFF],
+            "fullFF" => vec![0xFF],
+            "activeFF" => {
+                // the active manifest = last child box of the store's root superbox
+                let bx = tamper::walk_jumbf(f).unwrap_or_else(|| kit::ev::machinery(format!("C02 seed {}: JUMBF walker cannot parse the store", seed.id)));
+                let last = bx.iter().filter(|b| b.depth == 1 && b.typ == "jumb").last().unwrap_or_else(|| kit::ev::machinery("C02: store without manifest box"));
+                range = (last.start, last.end);
+                vec![0xFF]
+            }
+            _ => vec![],
+        }
+    };
+    let mut v = vec![];
+    if !masks.is_empty() {
+        for p in range.0..range.1 {
+            for m in &masks {
+                v.push(Edit::flip(f, p, *m));
+            }
+        }
+    }
+    let what = if masks.is_empty() {
+        "not swept in the quick tier".to_string()
+    } else {
+        format!("every byte of [{}, {}) x xor masks {}", range.0, range.1, if masks.len() > 9 { "01..ff (all 255)".to_string() } else { format!("{masks:02x?}") })
+    };
+    (v, what)
+}
+
+/// Structure edits on a detached store. Each is realised as a replacement of the whole store; `sym` names the box by its
+/// pre-order index in the harness's JUMBF walk, which is stable across re-signing.
+fn structure_edits(seed: &Seed) -> Vec<Edit> {
+    let s = &seed.bytes;
+    let Some(boxes) = tamper::walk_jumbf(s) else {
+        kit::ev::machinery(format!("C02 seed {}: JUMBF walker cannot parse the store", seed.id));
+    };
+    let whole = |kind: &'static str, v: Vec<u8>, sym: String| Edit::splice(kind, 0, s.len(), v, sym);
+    let raw = |start: usize, end: usize, rep: Vec<u8>| Edit::splice("edit", start, end, rep, String::new()).apply(s);
+    let mut out = vec![];
+    for (i, b) in boxes.iter().enumerate() {
+        if b.depth == 0 {
+            continue; // the root superbox: duplicating it is "append a second store", covered by C01 appends
+        }
+        let body = s[b.start..b.end].to_vec();
+        let len = body.len() as i64;
+        // duplicate
+        let mut d = raw(b.end, b.end, body.clone());
+        if tamper::fix_ancestor_sizes(&mut d, &boxes, b.parent, len).is_some() {
+            out.push(whole("dup-box", d, format!("jumbf dup box={i}")));
+        }
+        // delete
+        let mut d = raw(b.start, b.end, vec![]);
+        if tamper::fix_ancestor_sizes(&mut d, &boxes, b.parent, -len).is_some() {
+            out.push(whole("del-box", d, format!("jumbf del box={i}")));
+        }
+        // swap with next sibling
+        if let Some(n) = boxes.iter().skip(i + 1).find(|n| n.parent == b.parent && n.start == b.end) {
+            let mut r = s[n.start..n.end].to_vec();
+            r.extend_from_slice(&body);
+            out.push(whole("swap-boxes", raw(b.start, n.end, r), format!("jumbf swap box={i} with next sibling")));
+        }
+        // label bytes
+        if let Some((ls, le)) = b.label_range {
+            for p in ls..le {
+                for (mode, c) in [("x", b'x'), ("case", s[p] ^ 0x20), ("inc", s[p].wrapping_add(1))] {
+                    if c != s[p] && c != 0 {
+                        out.push(whole("label", raw(p, p + 1, vec![c]), format!("jumbf label box={i} byte={} mode={mode}", p - ls)));
+                    }
+                }
+            }
+        }
+    }
+    // move / copy assertion boxes of ingredient manifests into the active (= last) manifest's assertion store
+    let manifests: Vec<usize> = boxes.iter().enumerate().filter(|(_, b)| b.depth == 1 && b.typ == "jumb").map(|(i, _)| i).collect();
+    if manifests.len() >= 2 {
+        let active = *manifests.last().unwrap();
+        let astore = |m: usize, bx: &[JBox]| bx.iter().position(|b| b.parent == Some(m) && b.label.as_deref() == Some("c2pa.assertions"));
+        for &m in &manifests[..manifests.len() - 1] {
+            let Some(src_store) = astore(m, &boxes) else { continue };
+            for (ai, a) in boxes.iter().enumerate().filter(|(_, b)| b.parent == Some(src_store) && b.typ == "jumb") {
+                let body = s[a.start..a.end].to_vec();
+                // move: delete at the source, re-walk (offsets moved), insert at the end of the active assertion store
+                let mut d = raw(a.start, a.end, vec![]);
+                if tamper::fix_ancestor_sizes(&mut d, &boxes, a.parent, -(body.len() as i64)).is_some() {
+                    if let Some(b2) = tamper::walk_jumbf(&d) {
+                        let m2: Vec<usize> = b2.iter().enumerate().filter(|(_, b)| b.depth == 1 && b.typ == "jumb").map(|(i, _)| i).collect();
+                        if let Some(dst) = m2.last().and_then(|l| astore(*l, &b2)) {
+                            let at = b2[dst].end;
+                            let mut d2 = Edit::splice("edit", at, at, body.clone(), String::new()).apply(&d);
+                            if tamper::fix_ancestor_sizes(&mut d2, &b2, Some(dst), body.len() as i64).is_some() {
+                                out.push(whole("move-box", d2, format!("jumbf move assertion box={ai} into active assertion store")));
+                            }
+                        }
+                    }
+                }
+                // copy (source kept)
+                if let Some(dst0) = astore(active, &boxes) {
+                    let at0 = boxes[dst0].end;
+                    let mut d3 = raw(at0, at0, body.clone());
+                    if tamper::fix_ancestor_sizes(&mut d3, &boxes, Some(dst0), body.len() as i64).is_some() {
+                        out.push(whole("copy-box", d3, format!("jumbf copy assertion box={ai} into active assertion store")));
+                    }
+                }
+            }
+        }
+    }
+    out
+}
+
+fn region_of(seed: &Seed, boxes: &Option<Vec<JBox>>, base: usize, p: usize) -> String {
+    // innermost JUMBF box path by type/label, for violation keys
+    let Some(bx) = boxes else { return "container".into() };
+    if p < base {
+        return "framing".into();
+    }
+    let q = p - base;
+    let mut best: Option<&JBox> = None;
+    for b in bx {
+        if q >= b.start && q < b.end && best.map(|x| b.depth >= x.depth).unwrap_or(true) {
+            best = Some(b);
+        }
+    }
+    let _ = seed;
+    match best {
+        None => "outside-boxes".into(),
+        Some(b) => {
+            // name = label of nearest labelled ancestor + box type
+            let mut cur = Some(b);
+            let mut lab = None;
+            while let Some(c) = cur {
+                if let Some(l) = &c.label {
+                    lab = Some(l.clone());
+                    break;
+                }
+                cur = c.parent.map(|i| &bx[i]);
+            }
+            let lab = lab.unwrap_or_default();
+            let lab = if lab.starts_with("urn:") { "manifest".to_string() } else { lab };
+            format!("{}/{}", lab, b.typ)
+        }
+    }
+}
+
+pub fn judge(run: &Run, seed: &Seed, e: &Edit, boxes: &Option<Vec<JBox>>, base: usize, verbose: bool) -> String {
+    let m = e.apply(&seed.bytes);
+    if m == seed.bytes {
+        return "identity".into();
+    }
+    let obs = seed.observe(&m);
+    run.eval();
+    let class = obs.class();
+    // the case stores the edit compactly; whole-store structure edits are stored as the diff region only
+    let case = json!({"seed": seed.id, "edit": e.to_json()});
+    if verbose {
+        println!("  seed={} edit kind={} -> {}", seed.id, e.kind, class);
+    }
+    let shape = seed.id.as_str();
+    match &obs {
+        Obs::Panic(p) => {
+            run.violation(format!("panic {shape} {}", tamper::panic_key(p)), format!("reader panicked on a {} mutant of {}: {p}", e.kind, seed.id), case);
+        }
+        Obs::Err(_) => {}
+        Obs::Invalid => {
+            let mut h = DefaultHasher::new();
+            m.hash(&mut h);
+            run.nontrivial(format!("{}:{:x}", seed.id, h.finish()));
+        }
+        Obs::Accepted { state, canon } => {
+            let mut h = DefaultHasher::new();
+            m.hash(&mut h);
+            run.nontrivial(format!("{}:{:x}", seed.id, h.finish()));
+            if *canon != seed.canon {
+                if verbose && std::env::var("VERIF_DEBUG").is_ok() {
+                    let _ = std::fs::write("/tmp/out-B/canon-seed.json", &seed.canon);
+                    let _ = std::fs::write("/tmp/out-B/canon-mutant.json", canon);
+                }
+                let first = tamper::first_diff(&seed.bytes, &m);
+                let at = region_of(seed, boxes, base, first);
+                run.violation(
+                    format!("changed-but-accepted {shape} {} at={at}", e.kind),
+                    format!(
+                        "seed {}: {} (first differing store byte {first}, in {at}) is read as {state} but the report differs from the seed's: {}",
+                        seed.id,
+                        e.kind,
+                        diff_hint(&seed.canon, canon)
+                    ),
+                    case,
+                );
+                return "VIOLATION".into();
+            }
+        }
+    }
+    class
+}
+
+fn diff_hint(a: &str, b: &str) -> String {
+    let p = a.bytes().zip(b.bytes()).position(|(x, y)| x != y).unwrap_or(a.len().min(b.len()));
+    let lo = p.saturating_sub(60);
+    let cut = |s: &str| -> String { s.chars().skip(lo).take(160).collect() };
+    format!("seed report ...{}... vs mutant report ...{}...", cut(a), cut(b))
+}
+
+fn store_boxes(seed: &Seed) -> (Option<Vec<JBox>>, usize) {
+    match &seed.asset {
+        Some(_) => (tamper::walk_jumbf(&seed.bytes), 0),
+        None if tamper::family(&seed.spec.mime) == "bmff" => match tamper::bmff_c2pa_boxes(&seed.bytes).and_then(|b| b.last().copied()) {
+            Some((_, e, j)) => (tamper::walk_jumbf(&seed.bytes[j..e]), j),
+            None => (None, 0),
+        },
+        None => match tamper::jumbf_payload("jpeg", &seed.bytes) {
+            Some((s, e)) => (tamper::walk_jumbf(&seed.bytes[s..e]), s),
+            None => (None, 0),
+        },
+    }
+}
+
+pub fn run(run: &Run, replay: Option<&Value>) {
+    run.rule("one edit of the manifest store per case; non-trivial = distinct mutant byte strings on which the reader reached a validation verdict (Invalid, Valid or Trusted) rather than a parse error");
+    run.assume("carrier is the kit's 161-byte JPEG; stores are 4-16 KB and sit in one APP11 segment; repository Ed25519 test credentials; no time-stamp, so unprotected COSE header token bytes are not in play (C36)");
+    run.assume("single edits only; structure edits keep the box tree well formed by fixing the 32-bit LBox of every ancestor");
+    run.assume("hostile bytes are read in-process under catch_unwind");
+    run.assume("report equality is taken after canonicalisation (tamper::canon_report): random labels / instance ids renamed, validation time dropped, lists of validation statuses and of ingredient deltas compared as unordered collections");
+    let seeds = build_seeds();
+    if let Some(c) = replay {
+        let id = c["seed"].as_str().unwrap_or("");
+        let seed = seeds.iter().find(|s| s.id == id).unwrap_or_else(|| kit::ev::machinery(format!("replay: unknown seed {id}")));
+        let sym = c["edit"].as_str().unwrap_or("");
+        let mut all = byte_edits(seed, false).0;
+        all.extend(byte_edits(seed, true).0);
+        if seed.asset.is_some() {
+            all.extend(structure_edits(seed));
+        }
+        let e = all.into_iter().find(|e| e.sym == sym).unwrap_or_else(|| kit::ev::machinery(format!("replay: seed {id} has no edit `{sym}`")));
+        let (bx, base) = store_boxes(seed);
+        println!("replay C02: seed {} ({} bytes, swept range {:?})", seed.id, seed.bytes.len(), seed.range);
+        println!("  outcome: {}", judge(run, seed, &e, &bx, base, true));
+        return;
+    }
+    for s in seeds.iter().take(2) {
+        let (a, b) = (s.observe(&s.bytes), s.observe(&s.bytes));
+        match (&a, &b) {
+            (Obs::Accepted { canon: ca, .. }, Obs::Accepted { canon: cb, .. }) if ca == cb && *ca == s.canon => {}
+            _ => kit::ev::machinery(format!("C02 seed {}: two reads of the same bytes differ", s.id)),
+        }
+    }
+    let mut per_seed = vec![];
+    for s in &seeds {
+        let (bx, base) = store_boxes(s);
+        let (mut ed, what) = byte_edits(s, run.tier.is_thorough());
+        if ed.is_empty() && s.asset.is_none() {
+            continue; // embedded chain carriers: thorough tier only
+        }
+        let nbytes = ed.len();
+        let mut nstruct = 0;
+        if s.asset.is_some() {
+            let st = structure_edits(s);
+            nstruct = st.len();
+            ed.extend(st);
+        }
+        run.space(
+            &format!("{} ({} store bytes): {what} = {nbytes} edits + {nstruct} JUMBF structure edits", s.id, s.range.1 - s.range.0),
+            ed.len() as u64,
+            true,
+        );
+        let counts = std::sync::Mutex::new(std::collections::BTreeMap::<String, u64>::new());
+        if std::env::var("VERIF_DRY").is_ok() {
+            println!("dry: {} edits for {}", ed.len(), s.id);
+            continue;
+        }
+        par::for_each(&ed, |e| {
+            let c = judge(run, s, e, &bx, base, false);
+            *counts.lock().unwrap().entry(format!("{}:{}", if e.kind == "flip" { "byte" } else { "struct" }, c)).or_insert(0) += 1;
+        });
+        let counts = counts.into_inner().unwrap();
+        for (k, n) in &counts {
+            if !k.ends_with("identity") {
+                run.outcome_n(k.clone(), *n);
+            }
+        }
+        per_seed.push(json!({"seed": s.id, "store_bytes": s.range.1 - s.range.0, "boxes": bx.as_ref().map(|b| b.len()), "outcomes": counts}));
+        if per_seed.len() <= 3 {
+            run.sample(json!({"seed": s.id, "swept": [s.range.0, s.range.1], "first_edit": ed.first().map(|e| e.to_json()), "outcomes": counts}));
+        }
+    }
+    run.extra("per_seed", json!(per_seed));
 }
